@@ -30,7 +30,7 @@ ASSUMPTIONS = [
     "numpy's own eigen-decomposition is not used: the complete eigenbasis is the generator's own (R, L), so both runs describe exactly the same H_0",
     "direct solver: 1e-7 relative to the size of the block; KPM: 1e3 x atol",
 ]
-BUDGET = {"quick": dict(cases=400, seconds=75), "thorough": dict(cases=6000, seconds=540)}
+BUDGET = {"quick": dict(cases=400, seconds=300), "thorough": dict(cases=6000, seconds=540)}
 CASE_TIMEOUT = 120
 MONITORS = {"product": False, "solvers": True, "poison": True}
 MONITOR_VERDICTS = ("sylvester", "greens", "nonfinite", "fp", "write")
